@@ -275,6 +275,24 @@ def validate_trace(ctx, module, cfg, trace_path, timeout=600, name=None, env=Non
     if res["ok"]:
         return {"accepted": True, "matched": total, "total": total, "event": None,
                 "last_state": None, "wall_s": res["wall_s"]}
+    # TLC could not even evaluate the specification on some event (a value of an unexpected shape, e.g. after
+    # a panic in the code under test).  No behaviour of the specification explains that event: treat it as a
+    # rejection at the deepest line reached, and say so.
+    if "TLC threw an unexpected exception" in out or "evaluating the nested" in out:
+        ls = [int(x) for x in re.findall(r"/\\ l = (\d+)", out)]
+        if ls:
+            idx = max(ls)
+            lines = [x for x in open(trace_path) if x.strip()]
+            ev = None
+            if idx <= len(lines):
+                try:
+                    ev = json.loads(lines[idx - 1])
+                except Exception:
+                    ev = lines[idx - 1][:500]
+            m = re.search(r"The exception was a [^\n]*\n: ([^\n]*)", out)
+            return {"accepted": False, "matched": idx - 1, "total": total, "event": ev,
+                    "last_state": {"tlc_exception": m.group(1)[:300] if m else "evaluation error"},
+                    "wall_s": res["wall_s"]}
     tail = "\n".join(out.splitlines()[-60:])
     raise ToolError("trace validation %s/%s failed without a rejection line (%s):\n%s"
                     % (module, cfg, res.get("error"), tail))
